@@ -3,6 +3,7 @@ package mpath
 import (
 	"encoding/json"
 	"fmt"
+	"math"
 	"strconv"
 	"strings"
 	sc "text/scanner"
@@ -463,6 +464,9 @@ func dealWithNumbers(s *scanner, x *opFunction, r rune) (rune, error) {
 	x.userString += string(tt)
 
 	f, err := strconv.ParseFloat(tt, 64)
+	if err == nil && (math.IsNaN(f) || math.IsInf(f, 0)) {
+		err = fmt.Errorf("not a finite number")
+	}
 	if err != nil {
 		// This should not be possible, but handle it just in case
 		return r, erAt(s, "couldn't convert number as string '%s' to number", s.TokenText())
